@@ -157,18 +157,21 @@ func checkC10(p *Prog, r *Report) {
 	r.Rule("C10/FLAG-WIRED", "ServerOptions forwards -n under DryRun(): an append of \"n\" to the flag string dominated by the true edge of DryRun()", 1)
 	so := anchorFunc(p, r, pkgOpts, "Options", "ServerOptions")
 	if so != nil {
+		sub := NewReport(r.Prop, r.Tier) // guard diagnostics of the emission walk belong to C14
+		ems, _ := collectEmissions(p, sub, so)
 		found := false
-		for _, b := range so.Blocks {
-			for _, in := range b.Instrs {
-				bo, ok := in.(*ssa.BinOp)
-				if !ok {
-					continue
-				}
-				if c, ok := bo.Y.(*ssa.Const); ok && c.Value != nil && c.Value.ExactString() == `"n"` {
-					found = true
-					r.Cond(HasFact(in, true, isCallPred(dryAcc)), "C10/FLAG-WIRED", "ServerOptions += \"n\"", p.Pos(bo.Pos()), "\"n\" must be appended exactly when DryRun()")
+		for _, e := range ems {
+			if e.token != "-n" {
+				continue
+			}
+			found = true
+			ok := false
+			for _, f := range e.guard {
+				if c, isC := f.Cond.(*ssa.Call); isC && calleeName(c) == dryAcc && f.Val {
+					ok = true
 				}
 			}
+			r.Cond(ok && len(e.guard) == 1, "C10/FLAG-WIRED", "ServerOptions += \"n\"", p.Pos(instrPos(e.in)), "\"n\" must be appended exactly when DryRun()")
 		}
 		if !found {
 			r.Bad("C10/FLAG-WIRED", "ServerOptions += \"n\"", p.Pos(so.Pos()), "no emission of the dry-run flag found")
